@@ -1,6 +1,7 @@
 import GormModel.Drv.Util
 import GormModel.Model.Hooks
 import GormModel.Model.HookSchema
+import GormModel.Model.HookVisit
 import GormModel.Gen.Pipelines
 import GormModel.Gen.Finishers
 open Lean
@@ -30,6 +31,14 @@ def errOf : Nat → Json → Option ErrV
     | "wrap" => some (.wrap (← errOf fuel (arg a 1)))
     | "join" => some (.join (← errOf fuel (arg a 1)) (← errOf fuel (arg a 2)))
     | _ => none
+
+def natList? (j : Json) : Option (List Nat) := do
+  (← jArr? j).toList.mapM jNat?
+
+def vevJ : VEv → Json
+  | .before n => Json.arr #[Json.str "b", natJ n]
+  | .stmt b => Json.arr #[Json.str "s", natListJ b]
+  | .after n => Json.arr #[Json.str "a", natJ n]
 
 end HC13
 
@@ -82,6 +91,18 @@ def handleC13 (op : String) (args : Array Json) : Option Json := do
       ("carries", Json.bool (match r with | some x => x.carries e | none => false)),
       ("is", Json.arr (sents.map fun s => Json.bool (match r with | some x => x.is s | none => false)).toArray),
       ("decision", strListJ (txDecision atom r))])
+  | "hooks.visit" =>
+    -- ["hooks.visit", size, nbefore, nslots, adj, dedupe, roots, existing] -> log / ok / clean of Gorm.VGraph.run
+    let size ← jNat? (arg args 1)
+    let nb ← jNat? (arg args 2)
+    let ns ← jNat? (arg args 3)
+    let adj ← (← jArr? (arg args 4)).toList.mapM fun n => do (← jArr? n).toList.mapM HC13.natList?
+    let dd ← (← jArr? (arg args 5)).toList.mapM jBool?
+    let roots ← HC13.natList? (arg args 6)
+    let existing ← HC13.natList? (arg args 7)
+    let g : VGraph := { size := size, nbefore := nb, nslots := ns, adj := adj, dedupe := dd }
+    let r := g.run roots existing
+    some (Json.mkObj [("log", Json.arr (r.log.map HC13.vevJ).toArray), ("ok", Json.bool r.ok), ("clean", Json.bool r.clean)])
   | "hooks.batches" =>
     let n ← jNat? (arg args 1)
     let b ← jNat? (arg args 2)
